@@ -1,11 +1,14 @@
 SPECIFICATION Spec
 CONSTANTS
-  Formats = {"gro", "dump", "xyz", "pdb", "dlph", "dlpc"}
+  Formats = {"gro", "dump", "xyz", "pdb", "pdbx", "dlph", "dlpc"}
   NSet = {1, 5}
   MaxFrames = 2
   Pids = {0, 1}
   MaxFiles = 1
   ExtraNext = 2
+  HVSet = {FALSE, TRUE}
+  HFSet = {FALSE, TRUE}
+  ReuseSet = {FALSE}
   Emit = TRUE
 INVARIANTS OrderAndContent EofExact CountPreserved MismatchIsError NothingAfterError FileIsHistory Leaf
 CHECK_DEADLOCK FALSE
